@@ -65,7 +65,13 @@ Atoms == { A1, Rel(<<Step("child", T_name("", <<"t","e","x","t">>))>>), Abs(<<>>
            Rel(<<Step("child", T_pit(<<"t">>))>>), Rel(<<Step("self", T_name("", <<"c","h","i","l","d">>))>>),
            \* abbreviations equal their expansions also where it matters: a//b[p] is a/descendant-or-self::node()/child::b[p]
            Abs(<<Step("child", T_any), DoS, StepP("child", T_any, <<IntE(1)>>)>>), Rel(<<Self, DoS, StepP("child", T_any, <<Call(<<"l","a","s","t">>, <<>>)>>)>>),
-           Abs(<<DoS, StepP("child", T_any, <<IntE(2)>>)>>), Rel(<<Step("parent", T_node), StepP("attribute", T_any, <<IntE(1)>>)>>) }
+           Abs(<<DoS, StepP("child", T_any, <<IntE(2)>>)>>), Rel(<<Step("parent", T_node), StepP("attribute", T_any, <<IntE(1)>>)>>),
+           \* ... and an abbreviated child step is a child:: step whatever axis the steps before it used (//@a/../a, //@*/../*, @*/..//a)
+           Abs(<<DoS, Step("attribute", T_name("", <<"a">>)), Step("parent", T_node), Step("child", T_name("", <<"a">>))>>),
+           Abs(<<DoS, Step("attribute", T_any), Step("parent", T_node), Step("child", T_any)>>),
+           Rel(<<Step("attribute", T_any), Step("parent", T_node), DoS, Step("child", T_name("", <<"a">>))>>),
+           Abs(<<DoS, Step("namespace", T_any), Step("parent", T_node), Step("child", T_name("", <<"a">>))>>),
+           Rel(<<Step("attribute", T_any), Self, Step("parent", T_node), Step("child", T_any), Step("attribute", T_any)>>) }
 BinOps == {"or", "and", "eq", "ne", "lt", "le", "gt", "ge", "add", "sub", "mul", "div", "mod", "union"}
 UnionOK(e) == e.op \in {"path", "filter", "var", "call", "union"}
 Depth1 == Atoms \cup {NegE(x) : x \in Atoms} \cup {Bin(o, x, y) : o \in BinOps, x \in {A1, IntE(1), Var("", <<"v">>)}, y \in {A1, IntE(1), Var("", <<"v">>)}}
